@@ -1,5 +1,10 @@
 import os
 from verif import Q
+try:
+    import C18_t0_part as _t0
+except Exception as _e:   # the T0-native part needs encoders/t0tool.py
+    _t0 = None
+    _t0_err = repr(_e)
 
 META = {
  "level_text": "Bounded symbolic model checking (CBMC) of the real C encoders (asn1enc.c, encode_rsa_rawder.c, encode_rsa_pk8der.c, encode_ec_rawder.c, encode_ec_pk8der.c, pemenc.c) with all key/payload bytes symbolic: length announced with dest == NULL == length returned when writing == bytes actually written (guard region of symbolic sentinel bytes + CBMC object bounds), and the output is accepted by an independent strict DER reader / equals an independent RFC 7468 + RFC 4648 reference text, every field equal to the input. DER being canonical, acceptance by the strict reader with equal fields is byte-identity with any other conforming encoder. Partial: C encoders only, at the listed sizes; the T0 decoders (skey/pkey/pemdec) are checked elsewhere.",
@@ -36,7 +41,7 @@ META = {
 
 ASN1 = ["src/x509/asn1enc.c"]
 
-def queries():
+def _base_queries():
     qs = []
     qs.append(Q("asn1-length-all64", "C18_asn1.c", units=ASN1, defs=["-DMODE=1"], unwind=26,
                 desc="br_asn1_encode_length: NULL pass == written size == minimal DER length octets decoding to len, every 64-bit len"))
@@ -158,3 +163,14 @@ def queries():
         for fl in (0, 1, 2, 3):
             qs.append(pem_q(dl, fl, 8, tier="thorough", timeout=900))
     return qs
+
+
+def queries():
+    qs = _base_queries()
+    if _t0 is not None:
+        qs = qs + _t0.queries()
+    return qs
+
+if _t0 is not None:
+    META["assumptions"] = list(META.get("assumptions", [])) + list(getattr(_t0, "ASSUMPTIONS", []))
+    META["mutants_tried"] = list(META.get("mutants_tried", [])) + list(getattr(_t0, "MUTANTS", []))
